@@ -164,7 +164,14 @@ def module_dict(m):
     fields = [dict(name=f["name"], enum=m.enums.index(f["enum"]), kbits=f["kbits"], container_bits=f["container_bits"],
                    offset=f["offset"], bit_offset=f["bit_offset"], in_bits=f["in_bits"]) for f in m.fields]
     return dict(text=m.text(), enums=enums, fields=fields, struct_name=m.struct_name, struct_size=m.struct_size,
-                features=sorted(m.features))
+                case_attrs=m.all_case_attrs(), features=sorted(m.features))
+
+
+def written_case_attrs(md):
+    """Every enum_case attribute text written in the module (older replay files list only the effective ones)."""
+    if "case_attrs" in md:
+        return md["case_attrs"]
+    return sorted({v["attr"] for e in md["enums"] for v in e["values"] if v["attr"] is not None})
 
 
 def impl_spellings(name, attr):
@@ -479,7 +486,8 @@ def run_modules(ctx, mods):
         if r.status != 0:
             ctx.case(("rejected", md["text"]), nontrivial=True)
         exp = "(%s%%N, %s, %s)" % (r.status, fw.coq_bool(compiles if r.status == 0 else True), fw.coq_list(outs))
-        enum_cases.append((fw.coq_list(ins), exp, r))
+        written = fw.coq_list(["(string_of_codes %s)" % fw.coq_codes(a) for a in written_case_attrs(md)])
+        enum_cases.append(("(%s, %s)" % (written, fw.coq_list(ins)), exp, r))
         # fields
         if r.status == 0 and compiles:
             for i, f in enumerate(md["fields"]):
@@ -509,7 +517,7 @@ def run_modules(ctx, mods):
                                            "full-width" if (k == bw and k == tb) else "narrow"))
 
     # ---- compare with the model ---------------------------------------------------
-    runner = fw.CoqCases(ctx, "enums", HEADER, "run_module", "module_out_eqb", "(list enum_in)",
+    runner = fw.CoqCases(ctx, "enums", HEADER, "run_module", "module_out_eqb", "(list string * list enum_in)",
                          "(N * bool * list enum_out)", shard=max(4, (len(enum_cases) + fw.NPROC - 1) // fw.NPROC))
     t0 = time.time()
     bad = runner.run(enum_cases)
